@@ -1,6 +1,6 @@
 // ----- std::time: ASSUMED [A-TIME] ----------------------------------------------------------------
 // SystemTime / Duration are integers of milliseconds-or-finer; `now()` is an arbitrary instant
-// not before the epoch; `UNIX_EPOCH + d` never overflows for d <= u64::MAX ms (64-bit seconds).
+// not before the epoch and less than 2^63 ms after it; `UNIX_EPOCH + d` never overflows for d <= u64::MAX ms (64-bit seconds).
 #[verifier::external_body]
 pub struct SystemTime { _p: [u8; 0] }
 impl Clone for SystemTime { #[verifier::external_body] fn clone(&self) -> (o: Self) ensures o == *self { unimplemented!() } }
@@ -10,11 +10,14 @@ pub struct Duration { _p: [u8; 0] }
 #[verifier::external_body]
 pub struct SystemTimeError { _p: [u8; 0] }
 impl core::fmt::Debug for SystemTimeError { #[verifier::external_body] fn fmt(&self, f: &mut core::fmt::Formatter<'_>) -> core::fmt::Result { unimplemented!() } }
+/// `ns` is a value the wall clock returned during this call (established only by `SystemTime::now()`):
+/// lets a postcondition speak about "the instant at which the function read the clock"
+pub uninterp spec fn clock_reading(ns: int) -> bool;
 impl SystemTime {
     /// nanoseconds since the Unix epoch
     pub uninterp spec fn ns(&self) -> int;
     #[verifier::external_body]
-    pub fn now() -> (t: SystemTime) ensures t.ns() >= 0 { unimplemented!() }
+    pub fn now() -> (t: SystemTime) ensures t.ns() >= 0, t.ns() < 0x8000_0000_0000_0000 * 1000000, clock_reading(t.ns()) { unimplemented!() }
     /// Err exactly when `earlier` is later than self
     #[verifier::external_body]
     pub fn duration_since(&self, earlier: SystemTime) -> (r: Result<Duration, SystemTimeError>)
